@@ -42,7 +42,10 @@ type checkRunner struct {
 
 	checkedRcpts         []string
 	checkedRcptsPerCheck map[module.CheckState]map[string]struct{}
-	checkedRcptsLock     sync.Mutex
+	// rejectedRcptsPerCheck remembers the result of a check that refused a
+	// recipient, it is reused when the same recipient is named again.
+	rejectedRcptsPerCheck map[module.CheckState]map[string]module.CheckResult
+	checkedRcptsLock      sync.Mutex
 
 	// States of checks that rejected a CheckConnection or CheckSender call,
 	// with the rejection reason. Protected by checkedRcptsLock.
@@ -73,17 +76,18 @@ type checkRunner struct {
 
 func newCheckRunner(msgMeta *module.MsgMetadata, log log.Logger, r dns.Resolver) *checkRunner {
 	return &checkRunner{
-		msgMeta:              msgMeta,
-		checkedRcptsPerCheck: map[module.CheckState]map[string]struct{}{},
-		bodyChecked:          map[module.CheckState]struct{}{},
-		rejectedStates:       map[module.CheckState]error{},
-		connReplayed:         map[module.CheckState]struct{}{},
-		senderReplayed:       map[module.CheckState]struct{}{},
-		rcptsReplayed:        map[module.CheckState]struct{}{},
-		log:                  log,
-		resolver:             r,
-		dmarcVerify:          dmarc.NewVerifier(r),
-		states:               make(map[module.Check]module.CheckState),
+		msgMeta:               msgMeta,
+		checkedRcptsPerCheck:  map[module.CheckState]map[string]struct{}{},
+		rejectedRcptsPerCheck: map[module.CheckState]map[string]module.CheckResult{},
+		bodyChecked:           map[module.CheckState]struct{}{},
+		rejectedStates:        map[module.CheckState]error{},
+		connReplayed:          map[module.CheckState]struct{}{},
+		senderReplayed:        map[module.CheckState]struct{}{},
+		rcptsReplayed:         map[module.CheckState]struct{}{},
+		log:                   log,
+		resolver:              r,
+		dmarcVerify:           dmarc.NewVerifier(r),
+		states:                make(map[module.Check]module.CheckState),
 	}
 }
 
@@ -166,6 +170,7 @@ func (cr *checkRunner) checkStates(ctx context.Context, checks []module.Check) (
 			cr.checkedRcptsLock.Unlock()
 
 			res := s.CheckRcpt(ctx, rcpt)
+			cr.rememberRcptReject(s, rcpt, res)
 			return res
 		})
 		if err != nil {
@@ -311,8 +316,11 @@ func (cr *checkRunner) checkRcpt(ctx context.Context, checks []module.Check, rcp
 	err = cr.runAndMergeResults(states, func(s module.CheckState) module.CheckResult {
 		cr.checkedRcptsLock.Lock()
 		if _, ok := cr.checkedRcptsPerCheck[s][rcptTo]; ok {
+			// The check is not asked twice about the same recipient, but a
+			// recipient it refused stays refused when named again.
+			res := cr.rejectedRcptsPerCheck[s][rcptTo]
 			cr.checkedRcptsLock.Unlock()
-			return module.CheckResult{}
+			return res
 		}
 		if cr.checkedRcptsPerCheck[s] == nil {
 			cr.checkedRcptsPerCheck[s] = make(map[string]struct{})
@@ -321,11 +329,26 @@ func (cr *checkRunner) checkRcpt(ctx context.Context, checks []module.Check, rcp
 		cr.checkedRcptsLock.Unlock()
 
 		res := s.CheckRcpt(ctx, rcptTo)
+		cr.rememberRcptReject(s, rcptTo, res)
 		return res
 	})
 
 	cr.checkedRcpts = append(cr.checkedRcpts, rcptTo)
 	return err
+}
+
+// rememberRcptReject records that the check refused the recipient, so the
+// same answer is given if the recipient is named again.
+func (cr *checkRunner) rememberRcptReject(s module.CheckState, rcptTo string, res module.CheckResult) {
+	if !res.Reject {
+		return
+	}
+	cr.checkedRcptsLock.Lock()
+	defer cr.checkedRcptsLock.Unlock()
+	if cr.rejectedRcptsPerCheck[s] == nil {
+		cr.rejectedRcptsPerCheck[s] = make(map[string]module.CheckResult)
+	}
+	cr.rejectedRcptsPerCheck[s][rcptTo] = res
 }
 
 func (cr *checkRunner) checkBody(ctx context.Context, checks []module.Check, header textproto.Header, body buffer.Buffer) error {
